@@ -118,3 +118,15 @@ package influx
 //@   ensures [error_returns_no_rows] result5 != nil ==> len(result0) == 0
 //@   loop 1
 //@     invariant cnt == decodeN && pn == pointsN && len(rows) == pointsN
+
+// The separator search of the line splitter (measurement / tag / field boundaries). Whatever the escaping, an index
+// it returns is inside the text and holds the separator that was asked for - never a backslash in front of it.
+//@ prop C06
+//@ func nextUnescapedChar
+//@   requires !(enableTagArray && tagParse) && ch != 92
+//@   ensures [bounds] -1 <= result && result < len(s)
+//@   ensures [separator_found] result >= 0 ==> s[result] == ch
+//@   loop @again
+//@     invariant len(s) <= len(sOrig) && (forall k int :: 0 <= k && k < len(s) ==> s[k] == sOrig[len(sOrig) - len(s) + k])
+//@   loop 1
+//@     invariant 0 <= n && n <= nOrig && nOrig < len(s) && s[nOrig] == ch
